@@ -58,12 +58,11 @@ Lemma tp_of_parts_ok P R t y m d :
   c14_rep P R -> fits R t = true ->
   valid_date (y, m, d) -> days_from_civil y m d = t / tpd P ->
   -30000000000000000 <= y <= 30000000000000000 ->
-  t / tpd P <= 9223372036854775807 - 719468 ->
   let tod := t mod tpd P in let sec := sec_of P tod in
   tp_of_parts P R (mkUtc y m d (sec / 3600) (sec mod 3600 / 60) (sec mod 60)
                          (if sub_second P then Some (tod mod pden P * tick_ns P) else None)) = Ok t.
 Proof.
-  intros HR Ht Hv Hday Hy Hdmax tod sec.
+  intros HR Ht Hv Hday Hy tod sec.
   destruct (prec_facts P) as (Hpn & Hpd & Hone & Hbn & Hbd & Htpd & Htick).
   pose proof (tpd_pos P) as Htp0.
   assert (Htod : 0 <= tod < tpd P) by (unfold tod; apply Z.mod_pos_bound; exact Htp0).
@@ -140,11 +139,11 @@ Qed.
 
 (* ------------------------------------------------------------------ T_C14_parse_print *)
 
-Theorem tp_roundtrip P R t : c14_rep P R -> fits R t = true -> rt_defect P R t = false ->
+Theorem tp_roundtrip P R t : c14_rep P R -> fits R t = true ->
   exists text, tp_print P R t = Ok text /\ tp_parse P R text = Ok t.
 Proof.
-  intros HR Ht Hdef.
-  destruct (tp_print_text P R t HR Ht Hdef) as (y & m & d & Ec & Hv & Hd & Hyk & E). cbv zeta in E.
+  intros HR Ht.
+  destruct (tp_print_text P R t HR Ht) as (y & m & d & Ec & Hv & Hd & Hyk & E). cbv zeta in E.
   set (tod := t mod tpd P) in *. set (sec := sec_of P tod) in *.
   eexists. split; [exact E|].
   assert (Htod : 0 <= tod < tpd P) by (unfold tod; apply Z.mod_pos_bound, tpd_pos).
@@ -154,11 +153,14 @@ Proof.
   change (p10 17) with 100000000000000000 in H17.
   assert (Hy3 : -30000000000000000 <= y <= 30000000000000000).
   { pose proof (year_linear y m d Hv) as Hlin. cbv zeta in Hlin. rewrite Hd in Hlin.
-    unfold rt_defect in Hdef.
     assert (-9223372036854775808 <= t / tpd P).
     { apply fits_iff in Ht. pose proof (tpd_pos P).
       assert (tmin R >= -9223372036854775808) by (destruct HR as [-> | ->]; vm_compute; discriminate).
       apply Z.div_le_lower_bound; nia. }
+    assert (t / tpd P <= 9223372036854775807).
+    { apply fits_iff in Ht. pose proof (tpd_pos P).
+      assert (tmax R <= 9223372036854775807) by (destruct HR as [-> | ->]; vm_compute; discriminate).
+      apply Z.div_le_upper_bound; nia. }
     lia. }
   unfold tp_parse.
   rewrite parse_printed; try assumption; try lia.
@@ -177,6 +179,5 @@ Proof.
     f_equal. f_equal. destruct P; try discriminate Es; reflexivity. }
   rewrite Efr.
   apply (tp_of_parts_ok P R t y m d HR Ht Hv); try lia.
-  - rewrite days_from_civil_spec by exact Hv. exact Hd.
-  - unfold rt_defect in Hdef. lia.
+  rewrite days_from_civil_spec by exact Hv. exact Hd.
 Qed.
